@@ -62,6 +62,7 @@ def run(ctx):
                          "broken/slow VMs, destroy failures, rate limit, external cancels, hold/drain, one restart. distinct by hash of "
                          "the case term; non-trivial = at least one queue/pool call (runq, sync), one StartContainer (wp), any run (e2e)",
                     extra={"e2e_notes": notes},
+                    known_bits={4: "F21b"},
                     assumptions=[
                         "environment assumptions of the transition system (guards A1-A6 in coq/model/C14_sys.v): gone instance => no "
                         "processes; a pass starts nothing that still has a process on an undiscovered instance (fixStaleLocks; the stale-lock "
